@@ -132,7 +132,10 @@ def step : List String → String
     | some b => bool01 (Ref.rfcValid b)
     | none => "bad-op"
   | ["rfcnumber", h] => match bytesOfHex h with
-    | some b => bool01 (Ref.isNumber b)
+    | some b => bool01 (parseNumberFixed b == some b.length)   -- = RFC.Number b (C21.number_iff)
+    | none => "bad-op"
+  | ["numspec", h] => match bytesOfHex h with
+    | some b => bool01 (parseNumberFixed b == some b.length) ++ bool01 (Ref.isNumber b)
     | none => "bad-op"
   | ["rfcstring", h] => match bytesOfHex h with
     | some b => bool01 (Ref.isString b)
